@@ -334,8 +334,11 @@ var (
 )
 
 // hostsLines calls f for every line of 0..maxFields fields of hostsFields
-// joined by one of hostsSeps, behind every lead and before every tail.
-func hostsLines(maxFields int, sh *enum.Sharder, f func(line string)) {
+// joined by one of hostsSeps, behind every lead and before every tail.  The
+// lines with at least one field are produced once each (injective is true):
+// the fields hold no blank, so the lead, the separator, the fields and the tail
+// can be read back from the line.
+func hostsLines(maxFields int, sh *enum.Sharder, f func(line string, injective bool)) {
 	enum.Tokens(hostsFields, 0, maxFields, sh, func(seq []string) {
 		for _, sep := range hostsSeps {
 			if len(seq) < 2 && sep != hostsSeps[0] {
@@ -346,11 +349,56 @@ func hostsLines(maxFields int, sh *enum.Sharder, f func(line string)) {
 			body := strings.Join(seq, sep)
 			for _, lead := range hostsLeads {
 				for _, tail := range hostsTails {
-					f(lead + body + tail)
+					f(lead+body+tail, len(seq) > 0)
 				}
 			}
 		}
 	})
+}
+
+var hostsFieldSet = func() map[string]bool {
+	m := map[string]bool{}
+	for _, f := range hostsFields {
+		m[f] = true
+	}
+
+	return m
+}()
+
+// inHostsLines reports whether s is one of the lines of hostsLines(maxFields)
+// with at least one field.
+func inHostsLines(s string, maxFields int) bool {
+	for _, lead := range hostsLeads {
+		rest, hasLead := strings.CutPrefix(s, lead)
+		if !hasLead {
+			continue
+		}
+
+		for _, tail := range hostsTails {
+			body, hasTail := strings.CutSuffix(rest, tail)
+			if !hasTail || body == "" {
+				continue
+			}
+
+			for _, sep := range hostsSeps {
+				fields := strings.Split(body, sep)
+				if len(fields) > maxFields || (len(fields) < 2 && sep != hostsSeps[0]) {
+					continue
+				}
+
+				all := true
+				for _, fld := range fields {
+					all = all && hostsFieldSet[fld]
+				}
+
+				if all {
+					return true
+				}
+			}
+		}
+	}
+
+	return false
 }
 
 var hostsTextLines = []string{
@@ -456,7 +504,7 @@ func longStrings() (out []string) {
 	out = append(out,
 		rep("a.", 126)+"a", rep("a.", 127), rep("a.", 127)+"a", rep("a.", 40000),
 		rep("1.", 40)+"in-addr.arpa", rep("é", 127), rep("é.", 90), rep("\xff", 300), rep(".", 300),
-		rep("1:", 40), rep("::", 40), rep("[", 1000), rep("1.", 300), "[" + rep("1:", 300) + "]:80", rep(":", 70000),
+		rep("1:", 40), rep("::", 40), rep("[", 1000), rep("1.", 300), "["+rep("1:", 300)+"]:80", rep(":", 70000),
 		"http://"+rep("a", 70000), "http://u:"+rep("p", 70000)+"@h/", rep("%", 1000), rep("/", 70000), "http://["+rep(":", 1000)+"]",
 		rep("9", 400)+"h", rep("1h", 400), "1."+rep("0", 400)+"s", rep("-", 400),
 		`"`+rep(`A`, 1000)+`"`, rep("[", 100000), `"`+rep(`\`, 1001)+`"`, `"`+rep("a", 70000)+`"`, rep(`"`, 70000),
@@ -600,9 +648,11 @@ func generate(r *runner) {
 	}
 
 	// keyed is the counting mode of the remaining string families: hashed,
-	// and not counted at all when the string belongs to (a) or (b).
+	// and not counted at all when the string belongs to (a), to (b) or to the
+	// injective part of the hosts-file lines of (f).
+	maxHostsFields := runlib.Pick(c, 3, 4)
 	keyed := func(s string) int {
-		if inStringFamilies(s, len(sfams)) || inB(s) {
+		if inStringFamilies(s, len(sfams)) || inB(s) || inHostsLines(s, maxHostsFields) {
 			return countNone
 		}
 
@@ -650,7 +700,17 @@ func generate(r *runner) {
 	}
 
 	// (f) Hosts-file lines and files.
-	hostsLines(runlib.Pick(c, 3, 4), sh(), func(line string) { str("f-hosts-lines", "", line, keyed(line)) })
+	hostsLines(maxHostsFields, sh(), func(line string, injective bool) {
+		mode := countKeyed
+		switch {
+		case inStringFamilies(line, len(sfams)) || inB(line):
+			mode = countNone
+		case injective:
+			mode = countInjective
+		}
+
+		str("f-hosts-lines", "", line, mode)
+	})
 
 	fsh := sh()
 	hostsTexts(3, []string{"\n", "\r\n"}, func(text string) {
@@ -1001,5 +1061,43 @@ func netValues(r *runner, newSharder func() *enum.Sharder) {
 
 	for _, rec := range records() {
 		emitList(rec)
+	}
+}
+
+// selfTest checks the claims the distinct count rests on, on small instances:
+// the alphabets are uniquely decodable (so that the all-strings and pair
+// families are injective and the membership tests exact) and the hosts-file
+// lines with at least one field are produced once each and recognised by
+// inHostsLines.  A failure is an engine error, never a verdict.
+func selfTest() {
+	for _, a := range []*alpha{alphabet16, newAlpha(gen.IPAlphabet), hostsAlphabet, jsonAlphabet, durationAlphabet, foldAlphabet} {
+		seen := map[string]bool{}
+		enum.Tokens(a.syms, 0, 3, &enum.Sharder{}, func(seq []string) {
+			s := strings.Join(seq, "")
+			if n, ok := a.count(s); !ok || n != len(seq) || seen[s] {
+				runlib.EngineErrorf("self-test: alphabet %q is not uniquely decodable at %q", a.syms, s)
+			}
+
+			seen[s] = true
+		})
+	}
+
+	seen := map[string]bool{}
+	hostsLines(2, &enum.Sharder{}, func(line string, injective bool) {
+		if !injective {
+			return
+		}
+
+		if seen[line] || !inHostsLines(line, 2) {
+			runlib.EngineErrorf("self-test: hosts line %q is produced twice or not recognised", line)
+		}
+
+		seen[line] = true
+	})
+
+	for _, s := range []string{"", " ", "#", "a  ", "1.2.3.4\ta b", "x", "a b c"} {
+		if inHostsLines(s, 2) {
+			runlib.EngineErrorf("self-test: %q is taken for a generated hosts line", s)
+		}
 	}
 }
